@@ -19,7 +19,7 @@ CHECKS = {
         "that candidate lists are exactly the in-range destinations plus the null link at search_range^2, that subnets partition sources and share no destination, that "
         "solving subnets separately is globally optimal over previous-frame + remembered sources, Oversize iff a subnet exceeds the limit, and that the executable monitor "
         "is sound. Correspondence: every link_strategy of trackpy.link_iter and the three subnet linkers on constructed candidate graphs are checked step by step "
-        "by the monitor (cost of the implementation's assignment = verified optimum; raise iff).",
+        "by the monitor (cost of the implementation's assignment = verified optimum; raise iff). Route T: SubnetLinker.do_recur/__init__ and assign_subnet are REGENERATED from /repo's source on every run (tools/py2coq_linker.py -> coq/Gen/linker_core.v) and proved equal to the model's search/solve and subnet-dictionary model for all inputs; the subnet dictionary (Subnets.compute/assign_subnet) is modelled line by line and proved to build exactly the connected components = Link.components; dictionaries observed inside real Linker runs are compared with it.",
    note=LINK_NOTE + " The nonrecursive and numba solvers are tied to the verified optimum by the monitor on every generated case, not by their own refinement proof."),
 }
 
@@ -31,7 +31,8 @@ CHECKS.update({
         "only uncontested one-source/one-destination subnets; a per-axis range is exactly a rescaling (in-range test and costs coincide). Correspondence (differential): each movie through 5 "
         "strategies x link_iter/link/link_df_iter, permuted rows, legacy.link_iter (KDTree and hash table), pre-divided coordinates, and 'drop' (new and legacy); every labelling is replayed by "
         "the monitor; partitions may differ only where the monitor certifies an equal-cost tie.",
-   note=LINK_NOTE + " sklearn absent: the new linker's BTree neighbour strategy is not exercised. Solver-specific refinement proofs (nonrecursive, numba) are not done: agreement rests on the monitor."),
+   note=LINK_NOTE + " sklearn absent: the new linker's BTree neighbour strategy is not exercised. Solver-specific refinement proofs (nonrecursive, numba) are not done: agreement rests on the monitor.",
+   technique="machine-checked proofs over an executable Gallina model + translator from Python source to Coq for the solver core (regenerated per run) + correspondence run"),
  'C04': dict(
    text="Proof: Properties/C04.v - in the model with per-linker id counters, for EVERY schedule of Start/Step operations of any number of jobs the outputs of a job equal those of its solo run "
         "(non-interference by induction over the schedule; reproducibility corollary); the shared-counter model of the code before the fix is refuted by a witness schedule. Correspondence: "
@@ -61,8 +62,9 @@ CHECKS.update({
    text="Proof: Properties/C13.v - for every table, range, valid old labelling and valid in-range relinking, the model of link_partial / reconnect_traj_patch returns labels unique per frame, "
         "two rows share a label exactly when joined (equivalence closure of the three join rules, same-side reading), rows outside keep their grouping, rows and places are preserved, a range "
         "with an empty frame is an ordinary instance; the monitor is sound; the pre-fix function is refuted on the F4/F5 witnesses. Correspondence: corpus (F4, F5, docstring example, empty-frame "
-        "cases), random movies and a sample of the exhaustive small universe through trackpy.link_partial, model + verified monitor + independent union-find transcription.",
-   note=STAT_NOTE + "The in-range linker is taken as an arbitrary per-frame-unique labelling (its own properties are C01/C02)."),
+        "cases), random movies and a sample of the exhaustive small universe through trackpy.link_partial, model + verified monitor + independent union-find transcription. Route T: reconnect_traj_patch and link_partial are REGENERATED from /repo's source on every run (tools/py2coq_partial.py -> coq/Gen/partial.v) and proved equal to the model (set iteration order an explicit parameter); the headline theorems are restated for the generated functions.",
+   note=STAT_NOTE + "The in-range linker is taken as an arbitrary per-frame-unique labelling (its own properties are C01/C02).",
+   technique="machine-checked proofs over an executable Gallina model + translator from Python source to Coq (regenerated per run) + correspondence run"),
  'C15': dict(
    text="Proof: Properties/C15.v - packing: unpack(pack p) = p for parameters consistent with their modes and pack(unpack v) = v for every vector, all modes and groupings (polymorphic, unbounded); "
         "gradient: the scalar model functions are REGENERATED from /repo's source on every run (tools/py2coq_fitfun.py -> coq/Gen/fitfun.v) and each d-function is proved to be the derivative of "
@@ -75,9 +77,10 @@ CHECKS.update({
    text="Proof (partial): Properties/C16.v - the bounds box is exactly the intersection of requested and default intervals; default bounds keep positions within the mask radius and "
         "signal/size/background positive; for an arbitrary optimiser a failed unit keeps its input values with cost NaN and units do not affect each other; a fit reported successful lies "
         "within all bounds under the stated SLSQP contract; the monitor is sound. Correspondence/monitor on real refine_leastsq runs (out-of-image starts, NaN parameters, absurd feasible bounds, "
-        "non-convergent starts, clusters); accuracy on exact-model images is monitored only.",
+        "non-convergent starts, clusters); accuracy on exact-model images is monitored only. Route T: validate_bounds / compute_bounds and their wiring in refine_leastsq are REGENERATED from /repo's source on every run (tools/py2coq_bounds.py -> coq/Gen/bounds.v) and proved equal to the bounds model; the recentring loop (max_iter, accept-and-break, exhaustion, rms test after the loop) has an exact control-flow model with the full-strength driver theorem C16_driver_full; recorded optimiser outcomes are replayed through the model.",
    note=STAT_NOTE + "SLSQP enters as a Section variable assumed only to return a point of the box when it reports success. No theorem is possible for 'no other exception type escapes' and for the "
-        "0.1 px accuracy sentence: both are monitored. Infeasible (empty) boxes and non-finite positions are argument errors outside the property."),
+        "0.1 px accuracy sentence: both are monitored. Infeasible (empty) boxes and non-finite positions are argument errors outside the property.",
+   technique="machine-checked proofs over an executable Gallina model + translator from Python source to Coq for the bounds assembly (regenerated per run) + correspondence run"),
  'C17': dict(
    text="Proof: Properties/C17.v - for every trajectory with distinct frames both msd paths (FFT identity with the S1 recurrence; gap path) return exactly the mean over all pairs n frames "
         "apart, indexed by lag and lag/fps, NaN iff no pair, equal under any row permutation and gap pattern; imsd per particle; emsd = sum N_i m_i / sum N_i over contributing particles; the "
@@ -92,9 +95,10 @@ CHECKS.update({
    text="Proof (partial): Properties/C19.v - cluster: same id iff connected by a chain of features within separation, sizes = component sizes, ids never reused across frames, monitor sound; "
         "proximity = distance to the nearest other feature; g(r) = corrected pair histogram / (density*N*dr), invariant under permutation and (given boundary) translation; 2-D edge correction: "
         "arclen_2d_bounded = r x measure of the directions inside the box, for every r > 0 and centre in the box; 3-D: consistency identities only. Correspondence: exact models vs trackpy.static on lattice point sets; arclen_2d_bounded / area_3d_bounded against "
-        "independent geometric references.",
+        "independent geometric references. Route T: the seven edge-correction functions are REGENERATED from /repo's source on every run (tools/py2coq_static.py -> coq/Gen/static_geom.v) and proved equal to the models; the 2-D measure theorem is restated for the generated arclen_2d_bounded; 3-D: area_3d_bounded is the true area when only the faces of one axis are within reach (C19_area_3d_single_cap_partial).",
    note=STAT_NOTE + "The 3-D closed forms as areas are covered numerically only. Geometry theorems depend on the Coq standard library real-number axioms "
-        "(sig_forall_dec, sig_not_dec, classic, functional_extensionality_dep)."),
+        "(sig_forall_dec, sig_not_dec, classic, functional_extensionality_dep).",
+   technique="machine-checked proofs (Coq reals / Coquelicot) + translator from Python source to Coq (regenerated per run) + correspondence run"),
  'C20': dict(
    text="Proof: Properties/C20.v - filter_stubs / filter_clusters (modelled as pandas' groupby-filter algorithm) keep exactly the rows of qualifying trajectories with order and values "
         "preserved; for ANY pipeline length of producer stages every consumer accepts the result (finite index-layout algebra; exactly five layouts reachable), and producers give the same rows "
@@ -129,7 +133,7 @@ CHECKS.update({
         "row has mass > minmass, size < maxsize, no two rows closer than separation, ep never negative (positive, +inf or NaN for positive noise); topn returns at most n rows, the most massive; "
         "raising minmass / lowering maxsize / setting topn only removes rows and changes no kept value, and filtering the laxer result equals the direct result (which justifies the hook-free "
         "tie); monitors sound; the pre-fix code is refuted on the F2/F3 witnesses. Correspondence: locate run unrestricted and restricted on noise textures and blob images (2-D/3-D, "
-        "iso/anisotropic, preprocess on/off), rows matched bit for bit, verified monitors on every output, exact rational ep vs float ep.",
+        "iso/anisotropic, preprocess on/off), rows matched bit for bit, verified monitors on every output, exact rational ep vs float ep. The composed model of locate (C06 maxima, C07 refinement, tail) is proved to return only features inside the image (C08_inside_image), and every ep column of both branches of _static_error is proved never negative.",
    note=STAT_NOTE + "'Inside the image' is monitored on outputs; its proof is C07's window invariant. Everything before the tail (bandpass, maxima, refinement) is C06/C07/C10. topn=0 (returns everything) "
         "and ep=0.0 at exactly zero measured noise are outside / at the edge of the property and only counted."),
 })
@@ -139,7 +143,7 @@ CHECKS.update({
         "a blank canvas moves every row's position by exactly that offset and changes no other column (maxima, refinement and their composition; the harness' embedding satisfies the relational "
         "premises); maxima, refinement and the composed pipeline commute with any axis permutation (positions and per-axis sizes permuted, everything else identical); batch is the concatenation of locate per frame tagged with frame_no (or the position) and is independent of the completion "
         "order of Pool.imap workers; monitors sound; ecc's numerator provably differs under transposition (F13 witness). Correspondence: images x offsets x axis orders x locate parameters "
-        "(incl. canvases > 1 Mpx with a ladder of dim blobs at the percentile threshold), every reported column compared; batch with 1, 2 and more processes and shuffled frame orders.",
+        "(incl. canvases > 1 Mpx with a ladder of dim blobs at the percentile threshold), every reported column compared; batch with 1, 2 and more processes and shuffled frame orders. The whole integer pipeline INCLUDING the tail is proved equivariant under translation and any axis permutation under a boolean no-tie hypothesis (refuted without it: the open findings are exactly ties); batch's chunked pool is proved independent of workers/chunking with the frame's own frame_no as tag.",
    note=STAT_NOTE + "Bandpass under shift, the where_close dedupe, minmass/maxsize/topn, ep, float images, refinement under transposition and real Pool workers are covered by correspondence only. "
         "Open known findings (printed as KNOWN-FINDING, exit 0): F13 ecc under transposition; F15/F17 exact mass-and-coordinate-sum ties in where_close under transposition / translation."),
 })
@@ -150,7 +154,7 @@ CHECKS.update({
         "than separation to a point the frame already holds (masking argument; the fixed bg_radius provably covers it); candidates are within range of a searched position, pairwise "
         "separated, outside the margin with finite mass >= minmass; the image search is an admissible oracle; by induction over frames (with memory) every output frame satisfies the safety "
         "clauses; monitor sound; the pre-fix bg_radius (F12) and edge test (F16) are refuted on witnesses. Correspondence: get_relocate_candidates driven directly and compared as a set with "
-        "masses and ordering; find_link on blob movies and noise textures checked by the monitor.",
+        "masses and ordering; find_link on blob movies and noise textures checked by the monitor. Completeness half proved for the model (C14_movie_complete, C14_equals_detect_then_link) under boolean hypotheses evaluated in Coq on every generated movie.",
    note=STAT_NOTE + "The completeness half (complete trajectories whatever is withheld; equals detect-then-link when nothing is withheld) is an analytic statement about blob images: no theorem "
         "is possible, it is monitored on generated movies with withholding patterns. Isotropic parameters, integer pixel coordinates, no predictor; subnet bookkeeping of FindLinker is tied "
         "only through the monitor."),
